@@ -140,6 +140,20 @@ func c15Gen(o *out, r *rng, tier string) {
 	for _, s := range []string{"2562047H", "2562048H", "99999999H", "99999999M", "1 S", " 1S", "1S ", "１S", "1.5S", "1e3S", "0x1S", "1_0S", "+1234567S", "-1n", "00000000n", "000000001n"} {
 		emit(s, "hand-picked")
 	}
+	// hours: a sweep across the 8-digit range, and both sides of every multiple of 2^63 ns (where a
+	// product computed in int64 changes sign) and of 2^64 ns (where it wraps to small positive values)
+	for h := 1999999; h < 100000000; h += 617283 {
+		emit(fmt.Sprintf("%dH", h), "hours-sweep")
+	}
+	for k := 1; k <= 39; k++ {
+		edge := uint64(k) * (1 << 62) / 1800000000000 // k * 2^63 ns in hours
+		for _, d := range []int64{-1, 0, 1, 2} {
+			if v := int64(edge) + d; v > 0 && v < 100000000 {
+				emit(fmt.Sprintf("%dH", v), "hours-edges")
+				emit(fmt.Sprintf("%08dH", v), "hours-edges")
+			}
+		}
+	}
 	n := 400
 	if tier == "thorough" {
 		n = 20000
